@@ -37,6 +37,45 @@ def grades_table():
     return "\n".join(rows)
 
 
+def numbers():
+    import subprocess
+    def loc(pattern, root):
+        n = 0
+        for base, _, files in os.walk(os.path.join(ROOT, root)):
+            if ".lake" in base:
+                continue
+            for fn in files:
+                if fn.endswith(pattern):
+                    n += sum(1 for _ in open(os.path.join(base, fn), errors="ignore"))
+        return n
+    thms = 0
+    for i in range(1, 35):
+        try:
+            P = importlib.import_module(f"sfv.props.c{i:02d}").PROPERTY
+            thms += sum(len(framework.props_theorems(f)) for f in P.props_files)
+        except Exception:  # noqa: BLE001
+            pass
+    trs = sorted(fn[:-3] for fn in os.listdir(os.path.join(ROOT, "harness", "sfv", "translate")) if fn.endswith(".py") and fn not in ("__init__.py", "expr.py"))
+    gens = sorted(os.listdir(os.path.join(ROOT, "lean", "SFV", "Gen")))
+    op = fx = 0
+    for p in [os.path.join(ROOT, "known_findings.jsonl")] + sorted(glob.glob(os.path.join(ROOT, "known_findings.d", "*.jsonl"))):
+        for line in open(p):
+            if line.strip():
+                if json.loads(line).get("status") == "fixed":
+                    fx += 1
+                else:
+                    op += 1
+    seeds = [d for d in glob.glob(os.path.join(ROOT, "seeded", "C*")) if os.path.isdir(d)]
+    fixes = subprocess.run(["git", "-C", "/repo", "log", "--oneline", "--grep=^fix:"], capture_output=True, text=True).stdout.strip().split("\n")
+    lines = [
+        f"* property theorems (obligations audited with `#print axioms`): **{thms}** in {len(glob.glob(os.path.join(ROOT, 'lean', 'SFV', 'Props', '*.lean')))} property files; Lean sources: {loc('.lean', 'lean/SFV')} lines under `lean/SFV`, {loc('.lean', 'lean/Drivers')} lines of drivers; harness: {loc('.py', 'harness')} lines of Python",
+        f"* translators ({len(trs)}): {', '.join(trs)} → generated files ({len(gens)}): {', '.join(gens)}",
+        f"* known findings: {op} open, {fx} fixed entries; `fix:` commits in /repo: {len([f for f in fixes if f])}",
+        f"* seeded changes registered under `seeded/`: {len(seeds)}",
+    ]
+    return "\n".join(lines)
+
+
 def seeded_table():
     rows = ["| seed | property | what it needs to manifest | result of the check |", "|---|---|---|---|"]
     for d in sorted(glob.glob(os.path.join(ROOT, "seeded", "*"))):
@@ -71,7 +110,7 @@ def findings_list():
 def main():
     path = os.path.join(ROOT, "DESIGN.md")
     s = open(path).read()
-    for name, text in (("PROPS", props_table()), ("GRADES", grades_table()), ("SEEDED", seeded_table()), ("FINDINGS", findings_list())):
+    for name, text in (("PROPS", props_table()), ("GRADES", grades_table()), ("NUMBERS", numbers()), ("SEEDED", seeded_table()), ("FINDINGS", findings_list())):
         a, b = f"<!-- BEGIN {name} -->", f"<!-- END {name} -->"
         if a in s and b in s:
             s = s[: s.index(a) + len(a)] + "\n" + text + "\n" + s[s.index(b):]
